@@ -61,19 +61,28 @@ def case(chk, i):
         cargs.append(os.path.join(d, a) if not a.startswith("-") else a)
     roots = [os.path.join(d, r) for r in g.roots]
     name = "dag-%d" % i
-    via = rng.choice(["cli", "lib", "lib-contents"]) if len(roots) == 1 else "lib"
+    via = rng.choice(["cli", "cli-rel", "lib", "lib-contents"]) if len(roots) == 1 else "lib"
+    base = d
+    if via == "cli-rel" and any("\\" in r_ for r_ in g.roots):
+        via = "cli"
+    if via == "cli-rel":
+        # everything named relative to a working directory two levels below the tree: every path climbs through `..`
+        base = os.path.join(d, "cwd_sub", "deeper")
+        os.makedirs(base, exist_ok=True)
+        cargs = [a if a.startswith("-") else os.path.relpath(a, base) for a in cargs]
+        roots = [os.path.relpath(r_, base) for r_ in roots]
     depfile = os.path.join(d, "out.d")
     out_rs = os.path.join(d, "out.rs")
     target_name = out_rs
     files = {"files.txt": "\n\n".join("== %s\n%s" % kv for kv in sorted(g.files.items())), "roots.txt": "\n".join(g.roots), "cargs.txt": " ".join(cargs)}
     obs = {"dags": 1, "files_in_dag": len(g.files), "expected_read": len(g.expected), "expected_unread": len(g.not_read)}
     cb_files = None
-    if via == "cli":
+    if via in ("cli", "cli-rel"):
         # all but the last header are passed the way the CLI does it: -include
         cmd = [build.BINDGEN, roots[-1], "--depfile", depfile, "-o", out_rs, "--"] + cargs
         for r in roots[:-1]:
             cmd += ["-include", r]
-        rc, so, se, _ = sh(cmd, timeout=120, cpu=100, cwd=d)
+        rc, so, se, _ = sh(cmd, timeout=120, cpu=100, cwd=base)
         if rc != 0:
             return Verdict(INCONCLUSIVE, name, "bindgen rejected generated DAG: " + se[-400:])
         input_headers = [roots[-1]]
@@ -104,8 +113,8 @@ def case(chk, i):
     tgt, prereqs = lex_depfile(dtext)
     if tgt != target_name:
         problems.append("depfile target is %r, configured %r" % (tgt, target_name))
-    got = set(real(p, d) for p in prereqs)
-    raw_missing = [p for p in prereqs if not os.path.exists(p if os.path.isabs(p) else os.path.join(d, p))]
+    got = set(real(p, base) for p in prereqs)
+    raw_missing = [p for p in prereqs if not os.path.exists(p if os.path.isabs(p) else os.path.join(base, p))]
     if raw_missing and via != "lib-contents":
         problems.append("depfile lists paths that do not exist after unescaping: %s" % raw_missing[:3])
     expected = set(real(os.path.join(d, r)) for r in g.expected)
@@ -118,14 +127,14 @@ def case(chk, i):
     for r in roots[:-1]:
         ccmd += ["-include", r]
     ccmd += cargs + [roots[-1]]
-    rcm, _, sem, _ = sh(ccmd, timeout=60, cwd=d)
+    rcm, _, sem, _ = sh(ccmd, timeout=60, cwd=base)
     clangset = None
     if any("\\" in r for r in g.roots):
         rcm = 1     # clang -M rewrites backslashes in its own output; the model alone is the reference for such roots
         obs["clang_M_skipped_backslash_root"] = 1
     if rcm == 0 and os.path.exists(mfile):
         _, cp = lex_depfile(open(mfile).read())
-        clangset = set(real(p, d) for p in cp)
+        clangset = set(real(p, base) for p in cp)
         probed = set(real(os.path.join(d, r)) for r in g.probed)
         agree = expected <= clangset and (clangset - expected) <= probed
         obs["clang_M_agrees_with_model"] = 1 if agree else 0
@@ -158,12 +167,13 @@ def case(chk, i):
         m = re.match(r"^((?:\\.|[^:\\])*):", dtext)
         if m:
             body = dtext[m.end():]
-            mf = write(os.path.join(d, "Makefile"), "out.rs:%s\n\t@true\n" % body)
+            mk_target = "out.rs" if base == d else os.path.relpath(out_rs, base)
+            mf = write(os.path.join(d, "Makefile"), "%s:%s\n\t@true\n" % (mk_target, body))
             allp = sorted(got)
             newest = max(os.path.getmtime(p) for p in allp) + 10
             write(out_rs, "x")
             os.utime(out_rs, (newest, newest))
-            rcq, soq, seq, _ = sh(["make", "-q", "-f", mf, "out.rs"], cwd=d, timeout=60)
+            rcq, soq, seq, _ = sh(["make", "-q", "-f", mf, mk_target], cwd=base, timeout=60)
             obs["make_parses"] = 1
             if rcq != 0:
                 problems.append("GNU make does not see the depfile's prerequisites as the existing files (make -q exit %s): %s" % (rcq, (soq + seq)[-300:]))
@@ -171,7 +181,7 @@ def case(chk, i):
                 for p in allp:
                     st = os.stat(p)
                     os.utime(p, (newest + 100, newest + 100))
-                    rc1, so1, se1, _ = sh(["make", "-q", "-f", mf, "out.rs"], cwd=d, timeout=60)
+                    rc1, so1, se1, _ = sh(["make", "-q", "-f", mf, mk_target], cwd=base, timeout=60)
                     os.utime(p, (st.st_atime, st.st_mtime))
                     obs["make_touch_tests"] = obs.get("make_touch_tests", 0) + 1
                     if rc1 != 1:
